@@ -21,6 +21,7 @@ import (
 
 	"verifharness/gen"
 	"verifharness/mon"
+	"verifharness/oracle"
 	"verifharness/store"
 )
 
@@ -261,6 +262,17 @@ func TestC14(t *testing.T) {
 				childCid := st.PutBlock(1, cid.DagProtobuf, encodePB(mustMarshal(s.m), true, cls))
 				root := mustMarshal(&pb.Data{Type: &st5, HashType: mur, Fanout: proto.Uint64(8), Data: []byte{0x04}})
 				add("shard/valid-root-over-child-"+s.name, "map-lazy-error-preload", root, true, []pbLinkSpec{{Name: strp("2"), Tsize: u64p(1), Cid: childCid}}, nil, "child shard with invalid parameters")
+			}
+
+			// a child shard that is valid on its own but declares another fanout than its parent - also one
+			// with the same number of prefix digits (256 over 128, 1024 over 512, 16 over 8)
+			for _, pc := range [][2]uint64{{256, 128}, {256, 32}, {1024, 512}, {16, 8}, {256, 16}, {8, 16}} {
+				pad := oracle.PadLen(pc[1])
+				cls, _ := mkChildren(1, true, pad)
+				childData := mustMarshal(&pb.Data{Type: &st5, HashType: mur, Fanout: proto.Uint64(pc[1]), Data: []byte{0x01}})
+				childCid := st.PutBlock(1, cid.DagProtobuf, encodePB(childData, true, cls))
+				root := mustMarshal(&pb.Data{Type: &st5, HashType: mur, Fanout: proto.Uint64(pc[0]), Data: []byte{0x04}})
+				add(fmt.Sprintf("shard/f%d-root-over-f%d-child", pc[0], pc[1]), "map-lazy-error-preload", root, true, []pbLinkSpec{{Name: strp(fmt.Sprintf("%0*X", oracle.PadLen(pc[0]), 2)), Tsize: u64p(1), Cid: childCid}}, nil, "child shard with another fanout than its parent")
 			}
 
 			// nodes that are already reified (ADLs, not dag-pb): returned unchanged by every variant
